@@ -21,6 +21,9 @@ import Sml.Lemmas.DecSound2
               - `finalize`: `None` iff `b = len`, else `DiscardedBytes(len - b)`;
               - `reset` (this is the count attached to an I/O error by `DecoderReader`, see
                 `Rdr.onIoErr`): returns `len - b`;
+              - `Decoder::new()` / `Decoder::from_buf(buf)` replacing the decoder in mid-history
+                (`Op.new`, `Op.fromBuf stale`): the dropped decoder's pending bytes `b .. len` are
+                lost without a report (there is nothing to check); new boundary `len`;
               - a panic is a violation.
   `frame_tile` adds (using the soundness invariant of C02) that the tile of a delivered payload
   `m` is exactly `Spec.frame m`.
@@ -47,8 +50,11 @@ theorem tiling_ok (cap : Option Nat) (s : List UInt8) :
   obtain ⟨b, e, _⟩ := tiling cap s
   simp [tileOk, e]
 
-/-- Histories with `finalize` / `reset` calls anywhere: every report of every operation
-(per-byte outputs, `finalize` results, `reset` return values) is the one the positions dictate.
+/-- Histories with `finalize` / `reset` calls (and replacements of the decoder by `new` /
+`from_buf`) anywhere: every report of every operation (per-byte outputs, `finalize` results,
+`reset` return values) is the one the positions dictate; after a `new` / `from_buf` the counts
+restart at the current position (they never include bytes given to the dropped decoder, nor the
+stale contents of the buffer handed to `from_buf`).
 `tileOps` returns the last boundary and the number of bytes pushed. -/
 theorem tiling_history (cap : Option Nat) (ops : List Op) :
     ∃ b, tileOps 0 0 (Dec.run (Dec.fresh cap) ops).2 = some (b, pushCount ops) := by
@@ -142,5 +148,20 @@ example : tileFrom 0 0 (List.replicate 9 Out.none ++ [Out.err (.discarded 3)]) =
   decide
 
 example : tileEnd 45 47 (some (.discarded 1)) = false := by decide
+
+/-- a history with a `from_buf` (stale buffer contents) in the middle of a frame and a `new` in the
+middle of noise: the counts reported afterwards restart at the construction -/
+example : (Dec.run (Dec.fresh (some 8))
+      ([0xaa, 0x1b, 0x1b, 0x1b, 0x1b, 1, 1, 1, 1, 5].map Op.push ++ [.fromBuf [9, 9, 9]] ++
+        [0xbb, 0xcc].map Op.push ++ [.new] ++ [0xdd].map Op.push ++ [.reset, .fin])).2 =
+    List.replicate 8 (.out .none) ++ [.out (.err (.discarded 1)), .out .none, .fromBuf,
+      .out .none, .out .none, .new, .out .none, .reset 1, .fin none] := by
+  decide +kernel
+
+example : tileOps 0 0 (Dec.run (Dec.fresh (some 8))
+      ([0xaa, 0x1b, 0x1b, 0x1b, 0x1b, 1, 1, 1, 1, 5].map Op.push ++ [.fromBuf [9, 9, 9]] ++
+        [0xbb, 0xcc].map Op.push ++ [.new] ++ [0xdd].map Op.push ++ [.reset, .fin])).2 =
+    some (13, 13) := by
+  decide +kernel
 
 end Sml.C17
